@@ -17,7 +17,7 @@ def build(prog, vals, mode, n, p, pin_extra=True):
     """Trace prog on vals; return Instance (status 'ok' or 'raise')."""
     H.R.p = p
     H.R.want_sites = True
-    H.reset(bitlength=n)
+    H.reset(bitlength=n, resolution=1)
     rt = H.rt
     inst = Instance()
     inst.p, inst.n = p, n
@@ -96,7 +96,7 @@ def classify(inst, sols):
         hit = None
         undecided = False
         for wi, w in enumerate(inst.wires):
-            if s.dependent and W.depends_on_dependent(w, s, p):
+            if (s.dependent or s.affine) and W.depends_on_dependent(w, s, p):
                 # substitute the eliminated variables by their (affine) definitions: the wire may
                 # still be constant, or it may vary with a free variable
                 aw = W.affine_wire(w, s, red, p)
